@@ -30,6 +30,9 @@ items
                                                shell: method / header write / first turn failing => record status == client
   * pipe_stream_shell_one_record_status_matches the real RpcServer._serve_stream (wire stubbed): exactly one record, status ==
                                                what the client is sent, incl. a declared header that cannot be written
+  * http_unary_shell_record_matches_client_outcome the real _run_unary_sync + _enforce_response_budgets (wire stubbed): method
+                                               raises / bad result / external cap pre-flight / wire cap post-flush => one
+                                               record, status and error_message == what the client is sent
 """
 
 from __future__ import annotations
@@ -59,7 +62,8 @@ BOUNDS = (
 OUTSIDE = (
     "the bodies of the HTTP turn helpers (_run_http_producer_turn/_run_http_exchange_turn/_run_http_*_init are stubs "
     "reporting through `outcome`), the pipe stream shell beyond one producer tick, exchange streams on the pipe, and "
-    "the HTTP unary/upload shells (C04/C10/C15 harnesses); histories longer than init + one continuation; "
+    "the HTTP upload shell (C04/C10/C15 harnesses); the request-reading part of the HTTP unary shell (requests rejected "
+    "before dispatch); histories longer than init + one continuation; "
     "VgiAccessLogFormatter size caps above 4096 bytes; json.dumps of the "
     "payload; request_data Arrow round trip; requests rejected before dispatch (no record by design); "
     "messages between len %d and the cap" % _L
@@ -460,7 +464,7 @@ class _ReplayImpl:
 
 def _real_run(transport: str, debug: bool, kind: str, fail: bool, msg: str, cancel: bool = False, bad_result: object = False, cache_miss: bool = False,
               etype: object = None, init_fails: bool = False, producer: bool = True, token_ttl: int | None = None,
-              max_record_bytes: int | None = None, header: str = "") -> tuple[list, str]:  # fmt: skip
+              max_record_bytes: int | None = None, header: str = "", max_response_bytes: int | None = None) -> tuple[list, str]:  # fmt: skip
     """Un-stubbed public API: a real RpcServer served over an in-memory pipe or the real HTTP app (falcon test client),
     real logging with the real VgiAccessLogFormatter.  Returns (parsed vgi_rpc.access records of the call, what the client saw)."""
     import warnings
@@ -474,6 +478,7 @@ def _real_run(transport: str, debug: bool, kind: str, fail: bool, msg: str, canc
 
     _REAL_INFO["posts"] = None
     _REAL_INFO["blocked"] = False
+    _REAL_INFO["client_error_message"] = None
     fmt = lu.VgiAccessLogFormatter() if max_record_bytes is None else lu.VgiAccessLogFormatter(max_record_bytes=max_record_bytes)
     hp = "h" if header else ""
 
@@ -510,8 +515,11 @@ def _real_run(transport: str, debug: bool, kind: str, fail: bool, msg: str, canc
                 else:
                     for _ in it:
                         pass
-        except RpcError:
+        except RpcError as e:
             seen[0] = "error"
+            # the wire carries the summary "<Type>: <str(exc)>"; the server-side message is what follows the type
+            em, et = str(e.error_message), str(e.error_type)
+            _REAL_INFO["client_error_message"] = em[len(et) + 2:] if em.startswith(et + ": ") else em
         except Exception:  # noqa: BLE001  (e.g. StopIteration leaking from the proxy when no response batch arrives)
             seen[0] = "error"
 
@@ -534,6 +542,8 @@ def _real_run(transport: str, debug: bool, kind: str, fail: bool, msg: str, canc
                 extra: dict = {}
                 if kind == "stream" and producer:
                     extra["max_response_bytes"] = 300  # forces the producer into /exchange continuations
+                if max_response_bytes is not None:
+                    extra["max_response_bytes"] = max_response_bytes
                 if cache_miss:
                     extra["call_state_cache_entries"] = 0  # every continuation is rebuilt from the echoed call token
                 if token_ttl is not None:
@@ -1581,3 +1591,206 @@ def pipe_stream_shell_one_record_status_matches(outcome: int, has_header: bool) 
     if not _VALID(p) or p["method_type"] != "stream":
         return False
     return (p["status"] == "error") == client_saw_error
+
+
+# ---------------------------------------------------------------------------
+# (9) the HTTP unary shell (_run_unary_sync): every way the dispatched call can fail — the method raises, its result
+#     does not fit, the external-channel cap refuses it before the upload, the wire cap refuses it after the flush —
+#     gives exactly one record whose status and error_message are what the client is sent
+# ---------------------------------------------------------------------------
+
+from vgi_rpc.http.server import _app_unary as hu
+from vgi_rpc.http.server import _responses as hresp
+
+SIG_UNARY_MSG = "C34:http-unary-error-message-not-server-message"
+_U: dict = {"body": 0, "ext_predicted": 0}
+
+
+class _UBuf(_Fake):
+    """BytesIO of the shell: remembers what was written into it (result / error batches) and its size."""
+
+    def __init__(self, *a: object) -> None:
+        self.size = 0
+        self.items: list = []
+
+    def tell(self) -> int:
+        return self.size
+
+    def seek(self, *a: object) -> int:
+        return 0
+
+
+class _UWriter(_Fake):
+    def __init__(self, buf: _UBuf) -> None:
+        self.buf = buf
+
+    def __enter__(self) -> "_UWriter":
+        return self
+
+    def __exit__(self, *a: object) -> bool:
+        return False
+
+
+def _u_new_ipc_stream(sink: object, schema: object, *a: object, **k: object) -> _UWriter:
+    if not isinstance(sink, _UBuf):
+        raise HarnessModelError("new_ipc_stream on something that is not the shell's response buffer")
+    return _UWriter(sink)
+
+
+def _u_write_error_batch(writer: _UWriter, schema: object, exc: BaseException, *a: object, **k: object) -> None:
+    writer.buf.items.append(("error", exc))
+    writer.buf.size += 64
+
+
+def _u_build_result_batch(schema: object, result: object, *a: object, **k: object) -> object:
+    if result == "UNSERIALISABLE":
+        raise TypeError("value does not fit the declared result schema")
+    return ("BATCH", result)
+
+
+def _u_write_result_batch(writer: _UWriter, schema: object, result: object, external_config: object, *a: object, **k: object) -> int:
+    """Contract: writes the result (inline, or a pointer batch when externalised) and returns the bytes uploaded."""
+    writer.buf.items.append(("result", result))
+    if external_config is not None and _U["ext_predicted"] > 0:
+        writer.buf.size += 32
+        return _U["ext_predicted"]
+    writer.buf.size += _U["body"]
+    return 0
+
+
+class _UServer(_Fake):
+    ipc_validation = None
+    _protocol_version_parts = None
+    _describe_batch = None
+    _describe_metadata = None
+    _dispatch_hook = None
+    server_id = "srv1"
+    protocol_name = "Proto"
+    server_version = "1.0"
+    protocol_hash = _HASH
+    ctx_methods: tuple = ()
+    transport_kind = None
+
+    def __init__(self, impl: object, external_config: object) -> None:
+        self.implementation = impl
+        self.external_config = external_config
+
+
+class _UInfo(_Fake):
+    name = "meth"
+    method_type = _MethodType()
+    result_schema = None
+    result_type = int  # the real _validate_result refuses None for it
+    param_types: dict = {}
+    param_defaults: dict = {}
+    params_schema = None
+
+
+class _UApp(_Fake):
+    def __init__(self, impl: object, external_config: object, wire_cap: int | None, ext_cap: int | None) -> None:
+        self._server = _UServer(impl, external_config)
+        self._max_response_bytes = wire_cap
+        self._max_externalized_response_bytes = ext_cap
+
+
+_run_unary_http = reglobalize(
+    hu._run_unary_sync, _read_request=lambda stream, validation, external: ("meth", {}), _deserialize_params=lambda *a, **k: None,
+    _validate_call_signature=lambda *a, **k: None, _validate_params=lambda *a, **k: None, _get_auth_and_metadata=_hist_auth, _ClientLogSink=_HistSink,
+    BytesIO=_UBuf, new_ipc_stream=_u_new_ipc_stream, _build_result_batch=_u_build_result_batch, _write_result_batch=_u_write_result_batch,
+    _write_error_batch=_u_write_error_batch, predict_externalize_bytes_for_batch=lambda batch, cfg: _U["ext_predicted"], _emit_access_log=_emit,
+    time=_Clock(), _record_output=lambda batch: None,
+)  # fmt: skip
+_U_STUBS = _STUBS + [
+    "_read_request/_deserialize_params/_validate_* := accept; BytesIO/new_ipc_stream := response buffer recording the batches written and its size",
+    "_build_result_batch/_write_result_batch := contract stubs (a value that does not fit raises; returns the bytes uploaded); predict_externalize_bytes_for_batch := the size the harness chose",
+    "_write_error_batch := recorder; time := deterministic monotonic clock; _enforce_response_budgets, _validate_result, _truncate_error_message, _log_method_error are the real ones",
+]
+_U_SIZES = [10, 1000, 100000]
+_U_CAPS = [None, 100, 5000]
+
+
+def _replay_http_unary(args: dict) -> str | None:
+    """Un-stubbed: the real HTTP app.  The replay service's unary result is a few hundred bytes on the wire; what is kept
+    of the counterexample is whether the body overshoots the configured cap (real cap 100: it does; 1 MiB: it does not).
+    The external-channel dimension has no lever here."""
+    outcome, msg = args.get("outcome", 0), args.get("msg", "")
+    wire_cap = _pick_concrete(_U_CAPS, args.get("cap_kind", 0))
+    if wire_cap is not None:
+        wire_cap = 100 if _pick_concrete(_U_SIZES, args.get("size_kind", 0)) > wire_cap else 1_048_576
+    if args.get("ext") and args.get("ext_size", 0) > 0:
+        return None
+    recs, seen = _real_run("http", False, "unary", outcome == 1, msg, bad_result="NONE" if outcome == 2 else outcome == 3, max_response_bytes=wire_cap)
+    note = "" if wire_cap is None else f" under max_response_bytes={wire_cap}"
+    r = _judge_real("http", "unary", outcome == 1, msg, False, recs, seen, note)
+    if r is not None or seen != "error" or not recs:
+        return r
+    told = _REAL_INFO.get("client_error_message")
+    logged = recs[-1].get("error_message")
+    if isinstance(told, str) and told != "" and logged != told:
+        return f"http unary call{note}: the client was sent the server-side message {told[:80]!r} but the record's error_message is {str(logged)[:80]!r}"
+    return None
+
+
+def _pick_concrete(items: list, i: int) -> object:
+    for j, v in enumerate(items):
+        if j == i:
+            return v
+    raise IndexError(i)
+
+
+@cond(q=90, t=180, stubs=_U_STUBS, replay=_replay_http_unary, signature=lambda args, conc: SIG_UNARY_MSG,
+      encoded=[hu._run_unary_sync, hresp._enforce_response_budgets, srv._truncate_error_message, srv._emit_access_log],
+      bound="method returns a good value / raises ValueError(any str len<=%d) / returns None for a non-optional type / returns an unserialisable value; "
+            "body size {10, 1000, 100000} x max_response_bytes {none, 100, 5000}; externalisation off or on with upload size {0, 10, 1000, 100000} x max_externalized_response_bytes {none, 100, 5000}" % _L)
+def http_unary_shell_record_matches_client_outcome(outcome: int, msg: str, size_kind: int, cap_kind: int, ext: bool, ext_size: int, ext_cap_kind: int) -> bool:
+    """
+    pre: 0 <= outcome <= 3 and len(msg) <= _L
+    pre: 0 <= size_kind <= 2 and 0 <= cap_kind <= 2 and 0 <= ext_size <= 3 and 0 <= ext_cap_kind <= 2
+    post: _
+    """
+
+    class Impl:
+        def meth(self) -> object:
+            if outcome == 1:
+                raise ValueError(msg) if msg != "" else ValueError()
+            if outcome == 2:
+                return None
+            return "UNSERIALISABLE" if outcome == 3 else 7
+
+    _U["body"] = _pick_concrete(_U_SIZES, size_kind)
+    _U["ext_predicted"] = _pick_concrete([0] + _U_SIZES, ext_size) if ext else 0
+    app = _UApp(Impl(), object() if ext else None, _pick_concrete(_U_CAPS, cap_kind), _pick_concrete(_U_CAPS, ext_cap_kind))  # type: ignore[arg-type]
+    _HIST["auth"] = AuthContext(domain="jwt", authenticated=True, principal="alice")
+    del _ACCESS.records[:]
+    toks = [
+        (common._current_request_batch, common._current_request_batch.set(b"ARROW-IPC-BYTES")),
+        (common._current_stream_id, common._current_stream_id.set("")),
+        (common._current_request_id, common._current_request_id.set("req-1")),
+    ]
+    escaped, buf = False, None
+    try:
+        buf, _http_status = _run_unary_http(app, "meth", _UInfo(), object())
+    except HarnessModelError:
+        raise
+    except Exception:  # noqa: BLE001
+        escaped = True  # falcon answers with an error status: the client observes a failure
+    finally:
+        for var, tok in reversed(toks):
+            var.reset(tok)
+    payloads = [_FORMATTER._build_payload(r) for r in _ACCESS.records]
+    if len(payloads) != 1:
+        return False
+    p = payloads[0]
+    if not _VALID(p):
+        return False
+    sent = [exc for kind, exc in buf.items if kind == "error"] if isinstance(buf, _UBuf) else []
+    client_saw_error = escaped or len(sent) > 0
+    if (p["status"] == "error") != client_saw_error:
+        return False  # status matches the outcome the client observed
+    if outcome != 0 and not client_saw_error:
+        return False
+    if len(sent) == 1:
+        told = str(sent[0])
+        if told != "" and p.get("error_message") != told:
+            return False  # error_message carries the full server-side message: the one the client is sent
+    return len(sent) <= 1
